@@ -200,13 +200,38 @@ func lexJobs(props []string, entry string, tier string) []*Job {
 	return out
 }
 
+// sandwichJobs: Compile on concrete-prefix + N symbolic bytes + concrete-suffix.
+func sandwichJobs(props []string, tier string, grammar bool) []*Job {
+	type sw struct {
+		pre, post string
+		nq, nt    int
+	}
+	sws := []sw{{"\"", "\"", 3, 4}, {"'", "'", 3, 4}, {"`", "`", 3, 4}, {"a[", "]", 2, 3}, {"a.", "", 2, 3}, {"f(", ")", 2, 3}, {"{a:", "}", 2, 3},
+		{"a[?", "]", 2, 3}, {"[", "]", 2, 3}, {"a ", " b", 2, 3}, {"`\"", "\"`", 2, 3}, {"\"\\", "\"", 3, 4}}
+	var out []*Job
+	for _, s := range sws {
+		n := s.nq
+		if tier == "thorough" {
+			n = s.nt
+		}
+		j := jobOf("VerifCompile", props, "N", itoa(n), "pre", s.pre, "post", s.post)
+		if grammar {
+			j.Params["grammar"] = "1"
+		}
+		j.Unwind = 96
+		j.WitEvery = 97
+		out = append(out, j)
+	}
+	return out
+}
+
 func parseBounds(tier string) map[string]interface{} {
 	if tier == "thorough" {
 		return map[string]interface{}{"tokens_full_alphabet": "n <= 4 (all 30 token types symbolic)", "tokens_sub_alphabets": "brackets/slices n<=7, hash n<=9, calls n<=7, operators n<=7",
-			"expression_bytes": "N <= 4 arbitrary bytes (Compile, tokenize)", "number_payload": "2 symbolic characters (-|digit)digit"}
+			"expression_bytes": "N <= 4 arbitrary bytes (Compile, tokenize); plus 3-4 symbolic bytes between 12 concrete contexts", "number_payload": "2 symbolic characters (-|digit)digit"}
 	}
 	return map[string]interface{}{"tokens_full_alphabet": "n <= 3 (all 30 token types symbolic)", "tokens_sub_alphabets": "brackets/slices n<=5, hash n<=6, calls n<=5, operators n<=5",
-		"expression_bytes": "N <= 3 arbitrary bytes (Compile, tokenize)", "number_payload": "2 symbolic characters (-|digit)digit"}
+		"expression_bytes": "N <= 3 arbitrary bytes (Compile, tokenize); plus 2-3 symbolic bytes between 12 concrete contexts (inside quotes, backticks, brackets, calls, hashes, filters)", "number_payload": "2 symbolic characters (-|digit)digit"}
 }
 
 func init() {
@@ -218,6 +243,7 @@ func init() {
 				j.Params["grammar"] = "1"
 				j.Unwind = 64
 			}
+			cj = append(cj, sandwichJobs([]string{"C04"}, tier, true)...)
 			return append(parseJobs([]string{"C04"}, tier), cj...)
 		},
 		Bounds: parseBounds, Assumptions: commonAssumptions, Outside: parseOutside,
@@ -239,6 +265,7 @@ func init() {
 	specs["C17"] = &CheckSpec{Prop: "C17", Level: "model_checking", Panics: true,
 		Jobs: func(tier string) []*Job {
 			js := lexJobs([]string{"C17"}, "VerifCompile", tier)
+			js = append(js, sandwichJobs([]string{"C17"}, tier, false)...)
 			js = append(js, lexJobs([]string{"C17"}, "VerifLex", tier)...)
 			return append(js, parseJobs([]string{"C17"}, tier)...)
 		},
@@ -249,6 +276,7 @@ func init() {
 		Jobs: func(tier string) []*Job {
 			js := lexJobs([]string{"C05"}, "VerifLex", tier)
 			js = append(js, lexJobs([]string{"C05"}, "VerifCompile", tier)...)
+			js = append(js, sandwichJobs([]string{"C05"}, tier, false)...)
 			js = append(js, parseJobs([]string{"C05"}, tier)...)
 			L := 6
 			if tier == "thorough" {
@@ -337,7 +365,13 @@ func init() {
 					js = append(js, j)
 				}
 			}
+			for _, j := range js {
+				j.LockedWritesOK = true
+			}
 			one := frameJobs("C12", "quick")
+			for _, j := range one {
+				j.LockedWritesOK = true
+			}
 			for i, j := range one {
 				if i%4 == 0 || tier == "thorough" {
 					js = append(js, j)
